@@ -330,3 +330,21 @@ Lemma gen_routing_eq_model : forall p b,
 Proof. intros. split; reflexivity. Qed.
 '''
     return txt
+
+
+def check_translation(ck):
+    """shared obligation: regenerate the split / refill / routing arithmetic from the source and re-prove `generated = model`"""
+    import os
+    from harness.common import coqc
+    try:
+        txt = generate()
+        p = os.path.join(ck.bdir, 'SplitArith_gen.v')
+        open(p, 'w').write(txt)
+        rc, out, dt = coqc(p)
+        ck.checker_cmds.append(f'coqc build/{ck.pid}/SplitArith_gen.v')
+        ck.obligation('SplitArith_gen.v: arithmetic and comparison operators of _get_balanced_split, _refill_val_set, _build_tree and prediction-time routing, '
+                      're-translated from the source, equal the hand model (lia / reflexivity)', 'translation', rc == 0, out)
+        return rc == 0
+    except TranslationError as e:
+        ck.obligation('splitarith translator recognises the source', 'translation', False, str(e))
+        return False
